@@ -182,6 +182,40 @@ func runC26(c *Ctx) {
 			}
 		}
 	}
+	// methods declared on the wrapper that are not part of billy.Filesystem (optional interfaces that helpers such as
+	// util.RemoveAll discover by type assertion): treated as mutators — every string parameter validated for writing
+	ifaceNames := map[string]bool{}
+	for _, m := range ifaceMethods(fsIface) {
+		ifaceNames[m.Name()] = true
+	}
+	for _, fi := range p.FuncsIn("git") {
+		if recvTypeName(fi.Obj) != wtn || validators[fi.Name()] || ifaceNames[fi.Obj.Name()] || fi.Decl.Body == nil {
+			continue
+		}
+		f := p.FlowOf(fi)
+		rawSites := f.sinkSites(true, isRaw)
+		if len(rawSites) == 0 {
+			continue
+		}
+		c.Analysed(fi)
+		for _, pv := range paramObjs(info, fi.Decl) {
+			if !isStringish(pv.Type()) {
+				continue
+			}
+			pass := ErrGuard(argMentions(info, isCallTo(validW), pv))
+			ok := true
+			for _, loc := range rawSites {
+				if h := f.UnguardedPath(pass, loc); h != nil {
+					ok = false
+					c.Violate("path-validated", fi.Name()+":"+pv.Name(), h.Node.Pos(), "extra wrapper method reaches the raw filesystem without validWritePath("+pv.Name()+")")
+					break
+				}
+			}
+			if ok {
+				c.Hold("path-validated", fi.Name()+":"+pv.Name(), fi.Decl.Pos(), "extra wrapper method validates "+pv.Name()+" for writing before the raw filesystem")
+			}
+		}
+	}
 	c.Floor("path-validated", 15)
 
 	// 3. validator composition
@@ -247,7 +281,13 @@ func runC26(c *Ctx) {
 		name := funcNameOr(u.In, "<package level>")
 		if u.In != nil {
 			if tn := recvTypeName(u.In.Obj); tn == wtn {
-				c.Hold(ra, name+"->.Filesystem", u.Sel.Pos(), "inside the wrapper's own method")
+				// inside the wrapper the raw filesystem may only be the receiver of a direct method call;
+				// handing it to another function (util.RemoveAll, util.Walk …) lets that function operate unvalidated
+				if m := rawDirectCall(u.File, u.Sel); m != "" {
+					c.Hold(ra, name+"->.Filesystem."+m, u.Sel.Pos(), "direct method call inside the wrapper's own method")
+				} else {
+					c.Violate(ra, name+"->.Filesystem(escapes)", u.Sel.Pos(), "the raw filesystem is passed on or stored instead of being called directly; the callee operates on unvalidated paths")
+				}
 				continue
 			}
 		}
@@ -596,4 +636,22 @@ func nodeHasBuiltin(info *types.Info, e ast.Node, name string) bool {
 		return !found
 	})
 	return found
+}
+
+// rawDirectCall: sel (the selection of the raw filesystem field) is used as the receiver of a direct
+// method call `x.Filesystem.M(...)`; returns M, or "" when the raw value is used in any other way.
+func rawDirectCall(file *ast.File, sel *ast.SelectorExpr) string {
+	m := ""
+	ast.Inspect(file, func(n ast.Node) bool {
+		call, ok := n.(*ast.CallExpr)
+		if !ok {
+			return true
+		}
+		if outer, ok := unparen(call.Fun).(*ast.SelectorExpr); ok && unparen(outer.X) == sel {
+			m = outer.Sel.Name
+			return false
+		}
+		return true
+	})
+	return m
 }
